@@ -134,6 +134,9 @@ func genCosts(r *rng, nStages int, costStages []int, n int) ([]CostProf, string)
 
 // ---------- C06 ----------
 
+// forceShared makes genC06 produce a pipeline with a shared let-bound prefix (used by genC05)
+var forceShared bool
+
 func genPipeStages(r *rng, maxStages int, ops []string) []Stage {
 	n := r.rangeInt(0, maxStages)
 	st := make([]Stage, 0, n)
@@ -215,14 +218,28 @@ func genC06(r *rng, tier string) *Case {
 	}
 	nIds := ts + 1 + len(p.MU)
 	costs, ck := genCosts(r, nIds, costStages, p.N)
-	if len(p.Stages) > 0 && p.Src == "numbers" && r.chance(0.15) {
+	if len(p.Stages) > 0 && p.Src == "numbers" && (forceShared || r.chance(0.15)) {
 		// a let-bound prefix used by several goroutines of the same evaluation at once
-		p.Shared = r.rangeInt(1, 6)
+		p.Shared = r.rangeInt(1, 9)
 		p.Split = r.rangeInt(1, len(p.Stages))
 		if p.N > 300 {
 			p.N = pick(r, 13, 30, 100, 300)
 		}
-		if p.Shared == 2 {
+		if p.Shared == 2 || p.Shared == 6 {
+			// the shared list is iterated once per outer element: keep the product small
+			if p.N > 30 {
+				p.N = pick(r, 13, 20, 30)
+			}
+			for i := range p.Stages[:p.Split] {
+				if p.Stages[i].Op == "cross" {
+					p.Stages[i].Op = "map"
+				}
+				if p.Stages[i].Op == "map" {
+					p.Stages[i].Fn %= 4 // no nested pipelines inside the shared list's closures
+				}
+			}
+		}
+		if p.Shared == 2 || p.Shared == 8 {
 			for len(costs) <= sharedCostID {
 				costs = append(costs, CostProf{})
 			}
@@ -449,6 +466,18 @@ func genC05BoundaryEnum(e uint64) *Case {
 }
 
 func genC05(r *rng, tier string) *Case {
+	if r.chance(0.08) {
+		// no fault at all: a lazy list shared by several goroutines of one evaluation (multiUse
+		// consumers, merge operands, parallel workers); the oracle is "no crash, no hang"
+		forceShared = true
+		c := genC06(r, tier)
+		forceShared = false
+		if c.Pipe != nil && c.Pipe.Shared > 0 {
+			c.Class = "concurrent-benign"
+			c.X = Expect{Fault: "concurrent-benign", Ctx: "shared-list"}
+			return c
+		}
+	}
 	if r.chance(0.25) {
 		return genC05Boundary(r)
 	}
@@ -773,9 +802,38 @@ func genC08(r *rng, tier string) *Case {
 			need, x.Need2 = k+offset, k+offset
 		}
 	}
+	// compact as the last stage: runs of R consecutive values collapse to their first item, so output
+	// element j sits at source element val(j); the first item of a run is decisive as soon as it is seen
+	compacted := false
+	if second == "" && r.chance(0.12) && (term == "first" || term == "present" || term == "indexWhere" || term == "contains" || term == "topsize" || term == "lazyk") {
+		compacted = true
+		R := pick(r, 8, 40, 200)
+		kk := r.intn(5)
+		val := func(j int) int {
+			if j == 0 {
+				return offset
+			}
+			return (offset/R+1)*R + (j-1)*R
+		}
+		p.Stages = append(p.Stages, Stage{Op: "compact", Ident: true, N: R})
+		k = kk
+		switch term {
+		case "first":
+			need = offset
+		case "present", "indexWhere", "contains":
+			p.K = val(kk)
+			need = val(kk)
+		case "topsize":
+			p.Term = Stage{Op: "topsize", N: kk + 1}
+			need = val(kk + 1)
+		case "lazyk":
+			p.Consume = kk + 1
+			need = val(kk + 1)
+		}
+	}
 	// a sparse filter upstream: behind the decisive element (plus a little slack) nothing passes any more,
 	// so a stop that only takes effect "at the next item" never takes effect on a huge source
-	if second == "" && term != "multiUse" && term != "single" && r.chance(0.2) {
+	if second == "" && !compacted && term != "multiUse" && term != "single" && r.chance(0.2) {
 		at := 1 + r.intn(len(p.Stages)) // never in front of the probing first stage
 		sp := Stage{Op: "accept", Ident: true, Sparse: need + r.rangeInt(1, 4)}
 		p.Stages = append(p.Stages[:at:at], append([]Stage{sp}, p.Stages[at:]...)...)
@@ -793,6 +851,12 @@ func genC08(r *rng, tier string) *Case {
 			x.HasDec = false // the distributor reads one element further by design
 		default:
 			x.Dec = k + offset
+		}
+		if compacted {
+			x.Dec = need
+			if term == "topsize" || term == "lazyk" {
+				x.HasDec = false // finding the next run's first item legitimately scans a whole run
+			}
 		}
 	}
 	// the source must be longer than everything the consumer needs
